@@ -343,7 +343,24 @@ func (c *FnCtx) callFuncValue(st *State, call *ast.CallExpr, fv *Term, name stri
 	if fv.Op == "$yield" {
 		return c.callYield(st, call)
 	}
-	c.unsupportedf(call, "call of function value %s", name)
+	// a function value of unknown origin (parameter, field, variable): nothing is known about it - arguments are
+	// evaluated, the heap is havocked and the results are unconstrained
+	for _, a := range call.Args {
+		if _, isLit := ast.Unparen(a).(*ast.FuncLit); isLit {
+			c.unsupportedf(call, "call of function value %s with a function literal", name)
+		}
+		c.eval(st, a)
+	}
+	c.nonNil(st, fv, call, "function value "+name)
+	c.havocAllHeap(st)
+	c.assumptionsUsed["call of a function value of unknown origin: heap havocked, results unconstrained: "+name] = true
+	var rs []*Term
+	if fsig, ok := c.typeOf(call.Fun).Underlying().(*types.Signature); ok {
+		for i := 0; i < fsig.Results().Len(); i++ {
+			rs = append(rs, c.freshOfType(st, "res_"+name, fsig.Results().At(i).Type()))
+		}
+	}
+	return rs
 	return nil
 }
 
